@@ -320,7 +320,7 @@ SINKS: Dict[str, Tuple[List[Optional[str]], Dict[str, str]]] = {
 }
 # Affine.scale(a, b) only when two arguments; Affine(a, b, c, d, e, f)
 PER_AXIS = {"compute_axis_overlap", "snap_grid", "_snap_edge", "_snap_edge_pos", "data_resolution_and_offset", "Bin1D", "from_sample_bin", "_clamp", "_slice", "_sz", "slice_intersect3", "pad_slice"}
-TUPLE_SINKS = {"shape_": (Y, X), "GeoBox": (Y, X), "GCPGeoBox": (Y, X), "iyx_": (Y, X), "yx_": (Y, X), "xy_": (X, Y), "ixy_": (X, Y), "locate": (Y, X), "tile_shape": (Y, X)}
+TUPLE_SINKS = {"roi_normalise": (Y, X), "shape_": (Y, X), "GeoBox": (Y, X), "GCPGeoBox": (Y, X), "iyx_": (Y, X), "yx_": (Y, X), "xy_": (X, Y), "ixy_": (X, Y), "locate": (Y, X), "tile_shape": (Y, X)}
 
 
 def _cid(fi: FuncInfo, kind: str, node: ast.AST, counter: Dict[str, int]) -> str:
@@ -360,6 +360,11 @@ def rule_axis(prog: Program, modules: Set[str]) -> List[Instance]:
                     # single-tuple form  xy_((a, b))
                     for a, want in pairs:
                         t = ty.tag(a)
+                        if t is None and isinstance(a, ast.BinOp) and isinstance(a.op, (ast.Mult, ast.Div)):
+                            tl, tr = ty.tag(a.left), ty.tag(a.right)
+                            if tl and tr and tl != tr:
+                                cid = _cid(fi, f"T1:{nm}", a, counter)
+                                out.append(Instance("R-AXIS", cid, BAD, f"`{short(n, 70)}`: the {want}-slot of {nm}() receives `{short(a, 40)}`, a product of an {tl} and a {tr} quantity", fi.where(n)))
                         if t is None:
                             continue
                         cid = _cid(fi, f"T1:{nm}", a, counter)
@@ -379,7 +384,7 @@ def rule_axis(prog: Program, modules: Set[str]) -> List[Instance]:
                             out.append(Instance("R-AXIS", cid, OK, f"{nm}(({', '.join(want_o)})) receives {t} `{short(el, 30)}` in the {want} position", fi.where(n)))
                         else:
                             out.append(Instance("R-AXIS", cid, BAD, f"`{short(n, 70)}`: {nm}() expects ({', '.join(want_o)}) but `{short(el, 30)}` is a {t} quantity", fi.where(n)))
-                elif nm in TUPLE_SINKS and n.args and len(n.args) == 1:
+                elif nm in TUPLE_SINKS and n.args and (len(n.args) == 1 or nm == "roi_normalise"):
                     o = ty.order(n.args[0])
                     if o is not None and len(o) == 2:
                         want_o = TUPLE_SINKS[nm]
